@@ -3,7 +3,14 @@ use crate::evidence::CheckResult;
 use crate::known::Known;
 use crate::runner::{run_part, Part, Tier};
 
+pub mod c04;
+pub mod c05;
+pub mod c06;
+pub mod c12;
+pub mod c13;
+pub mod c14;
 pub mod c15;
+pub mod util;
 pub mod c16;
 pub mod c17;
 pub mod c19;
@@ -11,6 +18,12 @@ pub mod c19;
 /// All generated-search parts of a property (E1 parts; E2/X parts are driven by the property's own `check`).
 pub fn parts(prop: &str) -> Vec<Box<dyn Part>> {
     match prop {
+        "C04" => c04::parts(),
+        "C05" => c05::parts(),
+        "C06" => c06::parts(),
+        "C12" => c12::parts(),
+        "C13" => c13::parts(),
+        "C14" => c14::parts(),
         "C15" => c15::parts(),
         "C16" => c16::parts(),
         "C17" => c17::parts(),
@@ -19,7 +32,7 @@ pub fn parts(prop: &str) -> Vec<Box<dyn Part>> {
     }
 }
 
-pub const ALL: [&str; 4] = ["C15", "C16", "C17", "C19"];
+pub const ALL: [&str; 10] = ["C04", "C05", "C06", "C12", "C13", "C14", "C15", "C16", "C17", "C19"];
 
 pub fn assumptions(prop: &str) -> Vec<String> {
     let mut v = vec![
@@ -54,7 +67,10 @@ pub fn replay_file(prop: &str, file: &str, known: &Known, strict: bool) -> Resul
     let ctx = crate::runner::Ctx { known, strict };
     for p in parts(prop) {
         if p.name() == part {
-            let rep = p.run_case(&tape, &ctx);
+            let rep = match v["case"].as_str().and_then(|c| p.run_text(c, &ctx)) {
+                Some(r) => r,
+                None => p.run_case(&tape, &ctx),
+            };
             return Ok(match rep.verdict {
                 crate::runner::Verdict::Fail { msg, .. } => Some(msg),
                 _ => None,
